@@ -122,8 +122,15 @@ func (tm *TransferManager) handle() {
 				if b, err := transfer.ToBundle(); err != nil {
 					tm.msgOut <- msgs.NewTransferRefusalMessage(msgs.RefusalNotAcceptable, msg.TransferId)
 				} else {
-					tm.msgOut <- dam
-					tm.chanBundles <- b
+					// The bundle is handed over first. An acknowledged bundle which is still waiting here would be lost
+					// if the session ends right now, while its sender was already told that it was taken.
+					select {
+					case tm.chanBundles <- b:
+						tm.msgOut <- dam
+
+					case <-tm.stopChan:
+						return
+					}
 				}
 
 			// Everything else
